@@ -7,6 +7,15 @@ NOTES = ("All checks: bin/check <id>. Each run regenerates coq/Gen from /repo, r
          "Known findings: KNOWN_FINDINGS.txt.")
 NOT_APPLICABLE = {}
 CLAIMED = {
+    "C19": {
+        "text": "Theorems: the -debugdir target is refused exactly when it is a non-empty directory without the sentinel or not a directory, and emptied exactly "
+                "when it carries the sentinel; the deferred clean-up removes the directory this run created and nothing else, for every outcome and inherited "
+                "environment (the pre-fix behaviour is kept as a refuted statement). Tied black-box: 9 pre-states of the target and 14 command/outcome pairs "
+                "driven through the stub go with recursive hashes of target, source tree, TMPDIR and an inherited GARBLE_SHARED directory, plus a warm-cache "
+                "real -debugdir build checked for completeness.",
+        "note": "Trusted: Coq kernel; stub go; tree hashes; MkdirTemp freshness. No axioms.",
+        "technique": "Coq proof of the decision/cleanup skeleton + black-box enumeration of target states and command outcomes",
+    },
     "C08": {
         "text": "Theorems: (a) a replacer whose lookup takes the highest-priority matching key, priorities decreasing in argument order, equals the "
                 "first-match-in-order specification for every table (overlapping, prefix-sharing, repeated keys) and restores a name standing at the current "
